@@ -406,7 +406,7 @@ def rule_fixpoint(ctx, rule='C08.FIXPOINT'):
         early = rets or [f.node]
     ctx.check(not early and bool(rets), rule, ctx.key(f, None, 'no refresh skipped'),
               'the only way through _process_mempool without processing the listing is the DBSyncError guard',
-              'a return skips the refresh: ' + '; '.join(f'line {r.lineno} under {[norm(t) for t, b, _p in pr.control_conditions(r, f.node)]}' for r in early[:2] if isinstance(r, ast.Return)) +
+              'a return skips the refresh: ' + '; '.join(f'line {int(round(r.lineno))} under {[norm(t) for t, b, _p in pr.control_conditions(r, f.node)]}' for r in early[:2] if isinstance(r, ast.Return)) +
               ' - a listing of the same size (one eviction, one arrival) or any other guessed "no change" leaves the view stale',
               loc=ctx.loc(f, early[0] if early else f.node))
     return n + 1
